@@ -396,8 +396,10 @@ Proof.
   - unfold create_table.
     rewrite (sa_bind_ok (sa_getA_eq _ _ _ Ha)). rewrite Hn. cbn [length Nat.ltb Nat.leb negb guard].
     rewrite (sa_bind_ok (m := ret tt) (s := s) eq_refl).
+    cbn [rels_distinct guard]. rewrite (sa_bind_ok (m := ret tt) (s := s) eq_refl).
     cbn [place_targets of_opt]. rewrite (sa_bind_ok (m := ret _) (s := s) eq_refl).
     cbn [forM_]. rewrite (sa_bind_ok (m := ret tt) (s := s) eq_refl).
+    unfold register_targets; cbn [forM_]. rewrite (sa_bind_ok (m := ret tt) (s := s) eq_refl).
     rewrite (sa_bind_ok (m := get) (s := s) eq_refl).
     rewrite Hf. cbn [rev].
     unfold arch_has_rels. rewrite Hn. cbn [Nat.eqb negb].
